@@ -29,6 +29,27 @@ pub fn set_nondet_order(on: bool) {
     }
 }
 
+/// Largest single buffer size a parser asked for since the last `reset_alloc_probe` (C05).
+pub static mut MAX_ALLOC_REQUEST: usize = 0;
+
+pub fn note_alloc(size: usize) {
+    unsafe {
+        if size > MAX_ALLOC_REQUEST {
+            MAX_ALLOC_REQUEST = size;
+        }
+    }
+}
+
+pub fn reset_alloc_probe() {
+    unsafe {
+        MAX_ALLOC_REQUEST = 0;
+    }
+}
+
+pub fn max_alloc_request() -> usize {
+    unsafe { MAX_ALLOC_REQUEST }
+}
+
 #[cfg(kani)]
 fn choose_slot(free_count: usize) -> usize {
     if unsafe { NONDET_ORDER } {
